@@ -248,7 +248,10 @@ def shapeop_case(rng, tier):
             # any number of array axes (NumPy's .T reverses all of them)
             c['x'] = intdata(rng, (D, P) + tuple(rng.randint(1, 3) for _ in range(rng.choice([0, 1, 2, 2, 3, 4, 5]))))
         else:
-            c['x'] = intdata(rng, (D, P) + (rng.randint(1, 3),) * 2)
+            # square, tall (also by two or more rows) and wide matrices
+            c['x'] = intdata(rng, (D, P) + ((rng.randint(1, 3),) * 2 if rng.random() < 0.4 else (rng.randint(1, 5), rng.randint(1, 5))))
+            if op != 'trace' and rng.random() < 0.5:
+                c['k'] = rng.randint(-5, 5)        # off-diagonals, also beyond the matrix
     elif op == 'sum':
         s = tuple(rng.randint(1, 3) for _ in range(rng.randint(1, 3)))
         c['x'], c['axis'] = intdata(rng, (D, P) + s), rng.choice([None] + list(range(-len(s), len(s))))
@@ -256,6 +259,8 @@ def shapeop_case(rng, tier):
         c['x'], c['reps'] = intdata(rng, (D, P, rng.randint(1, 3))), rng.randint(1, 3)
     elif op == 'diag':
         c['x'] = intdata(rng, (D, P, rng.randint(1, 3)))
+        if rng.random() < 0.4:
+            c['k'] = rng.randint(-3, 3)
     elif op in ('symvec',):
         n = rng.randint(1, 3)
         a = intdata(rng, (D, P, n, n))
@@ -293,10 +298,10 @@ def shapeop_fails(ctx, case):
         'T': (lambda v: v.T, lambda a: a.T),
         'sum': (lambda v: algopy.sum(v, axis=case.get('axis')), lambda a: np.sum(a, axis=case.get('axis'))),
         'tile': (lambda v: algopy.tile(v, case.get('reps')), lambda a: np.tile(a, case.get('reps'))),
-        'diag': (lambda v: algopy.diag(v), lambda a: np.diag(a)),
-        'diag2': (lambda v: algopy.diag(v), lambda a: np.diag(a)),
-        'triu': (lambda v: algopy.triu(v), lambda a: np.triu(a)),
-        'tril': (lambda v: algopy.tril(v), lambda a: np.tril(a)),
+        'diag': ((lambda v: algopy.diag(v, case['k'])) if 'k' in case else (lambda v: algopy.diag(v)), lambda a: np.diag(a, case.get('k', 0))),
+        'diag2': ((lambda v: algopy.diag(v, k=case['k'])) if 'k' in case else (lambda v: algopy.diag(v)), lambda a: np.diag(a, case.get('k', 0))),
+        'triu': ((lambda v: algopy.triu(v, case['k'])) if 'k' in case else (lambda v: algopy.triu(v)), lambda a: np.triu(a, case.get('k', 0))),
+        'tril': ((lambda v: algopy.tril(v, k=case['k'])) if 'k' in case else (lambda v: algopy.tril(v)), lambda a: np.tril(a, case.get('k', 0))),
         'trace': (lambda v: algopy.trace(v), lambda a: np.trace(a)),
         'neg': (lambda v: -v, lambda a: -a),
         'conj': (lambda v: algopy.conjugate(v), lambda a: np.conjugate(a)),
